@@ -10,6 +10,9 @@ import (
 )
 
 const NS = "http://ex.org/v#"
+const ApiExtNS = "http://a.ml/vocabularies/api-extension#"
+const CustomDomainProps = "http://a.ml/vocabularies/document#customDomainProperties"
+const ExtensionName = "http://a.ml/vocabularies/core#extensionName"
 const NodeNS = "http://ex.org/n/"
 
 type Val struct {
@@ -56,9 +59,14 @@ type Path struct {
 func PP(local string, inv bool) Path { s := NS + local; return Path{P: &s, Inv: inv} }
 func PType() Path                     { s := "@type"; return Path{P: &s} }
 
+func PCustom(name string, inv bool) Path { s := ApiExtNS + name; return Path{P: &s, Inv: inv} }
+
 func (p Path) local() string {
 	if *p.P == "@type" {
 		return "@type"
+	}
+	if strings.HasPrefix(*p.P, ApiExtNS) {
+		return "apiExt." + strings.TrimPrefix(*p.P, ApiExtNS)
 	}
 	return "ex." + strings.TrimPrefix(*p.P, NS)
 }
